@@ -595,3 +595,7 @@ def run(prog, rep, tier, snap):
     rep.rule("R13.10", "the executor's stdout carries the `not run` report of an occurrence over its limit (shared with C13)", 1)
     rep.call(c13.r13_10, prog, rep)
 READY = True
+
+# texts brought up to date with the rules above (they supersede the first versions at the top of the module)
+LEVEL_TEXT = LEVEL_TEXT + (" Also: no child watcher keeps pointing at a task record that went back to the pool (links severed, or no run in flight; "
+                           "the callback tests the link before following it); the executor leaves its own standard descriptors alone.")
